@@ -202,6 +202,19 @@ def rom_same_name(n=3):
 
 
 @design
+def mems_same_name(aw=1, dw=3):
+    """two distinct writable memories that were given the same name (a helper instantiated twice)"""
+    ra, wa, wd, we = _io([aw, aw, dw, 1])
+    outs = []
+    for i in range(2):
+        m = pyrtl.MemBlock(bitwidth=dw, addrwidth=aw, name='table', asynchronous=True)
+        m[wa] <<= pyrtl.MemBlock.EnabledWrite((wd + i)[:dw], we)
+        outs.append(m[ra])
+    _out(outs[0], 'out0')
+    _out(outs[1] ^ outs[0], 'out1')
+
+
+@design
 def mem_sync(aw=2, dw=3):
     ra, wa, wd, we = _io([aw, aw, dw, 1])
     rr = pyrtl.Register(aw, 'rr')
@@ -445,6 +458,7 @@ def family(tier='quick', seed=0):
     add('mem_const_addr')
     add('mem_reg_ports')
     add('mem_readonly')
+    add('mems_same_name')
     add('rom_same_name')
     add('rom_list')
     add('rom_func')
